@@ -180,13 +180,23 @@ RedOutcome(op, u, x) ==
   ELSE Val(U("delta_degC", ""), RedDeltas(op, x))                       \* relabelled, never rescaled
 
 \* multiplicative / power family.  partner: "self" (same unit), "K", "m" (metre), "nd" (dimensionless quantity), "two" (bare 2.0)
-RefBin == {"multiply", "divide", "floor_divide", "divmod", "dot", "matmul"}
-RefUn == {"square", "sqrt", "cbrt", "reciprocal", "power2", "power3", "powerhalf", "powerm1", "pow2", "pow3", "powhalf", "powm1", "prod_reduce", "prod", "prodmethod"}
-RefOutcome(op, u) ==
-  CASE op \in {"multiply", "divide", "floor_divide", "dot", "matmul"} -> IF HasOff(u) THEN Raise("InvalidUnitOperation") ELSE Opaque("product")
+\* product-like operations on arrays.  Ufunc-based ones go through __array_ufunc__ (rule _multiply_units/_divide_units: the
+\* temperature guard refuses ANY partner); array-function handlers multiply the bare result by `unit_a * unit_b`:
+\* Unit.__mul__ refuses offset * unit-ful, but lets offset * dimensionless through (keeping the offset), so a unit-less
+\* partner is not refused there.  partner: "self" (same unit), "K", "m", "nd" (dimensionless quantity), "bare" (ndarray),
+\* "list", "two" (bare 2.0)
+UfuncProducts == {"multiply", "divide", "true_divide", "floor_divide", "matmul", "at", "vecdot", "mouter", "linalg_vecdot", "linalg_matmul"}
+FuncProducts == {"dot", "inner", "outer", "vdot", "tensordot", "einsum", "kron", "cross", "convolve", "correlate", "linalg_outer", "linalg_cross"}
+RefBin == UfuncProducts \cup FuncProducts \cup {"divmod"}
+CumProds == {"cumprod", "nancumprod", "cumulative_prod"}
+RefUn == {"square", "sqrt", "cbrt", "reciprocal", "power2", "power3", "powerhalf", "powerm1", "pow2", "pow3", "powhalf", "powm1", "prod_reduce", "prod", "prodmethod", "nanprod"} \cup CumProds
+UnitlessPart(part) == part \in {"nd", "bare", "list", "two"}
+RefOutcome(op, u, part) ==
+  CASE op \in UfuncProducts -> IF HasOff(u) THEN Raise("InvalidUnitOperation") ELSE Opaque("product")
+    [] op \in FuncProducts -> IF HasOff(u) /\ ~UnitlessPart(part) THEN Raise("InvalidUnitOperation") ELSE Opaque("product")
     [] op = "divmod" -> Opaque("passthrough")                                   \* _passthrough_unit: no guard at all
-    [] op \in {"square", "pow2"} -> IF HasOff(u) THEN Raise("InvalidUnitOperation") ELSE Opaque("power")   \* unit * unit: Unit.__mul__ guard
-    [] OTHER -> Opaque("power")                                                 \* Unit.__pow__ has no offset guard
+    [] op \in CumProds -> Raise("UnytError")                                    \* refused for every unit
+    [] OTHER -> IF HasOff(u) THEN Raise("InvalidUnitOperation") ELSE Opaque("power")   \* unit * unit / Unit.__pow__ guards
 
 (* ---------------- chains of conversion routes on the SAME source object ---------------- *)
 \* c.chain = <<[r, v], ...>>: every route is applied to the source x (unit c.u0, readings X(c, 0)), except
@@ -214,7 +224,7 @@ Outcome(c) ==
   CASE c.fam = "conv" -> [k |-> "val", exc |-> "", unit |-> c.u1, v |-> Map1(LAMBDA x : AffMant(x, c.u0, c.u1), X(c, 0)), k10 |-> AffK10(c.u0, c.u1)]
     [] c.fam = "bin" -> BinOutcome(c.op, c.u0, c.u1, X(c, 0), X(c, 1))
     [] c.fam = "red" -> RedOutcome(c.op, c.u0, X(c, 0))
-    [] c.fam = "ref" -> RefOutcome(c.op, c.u0)
+    [] c.fam = "ref" -> RefOutcome(c.op, c.u0, c.part)
     [] c.fam = "chain" -> ChainOutcome(c)
 
 (* ---------------- C08: what the property demands of an observed outcome ---------------- *)
@@ -278,6 +288,7 @@ FixedOutcome(c) ==
     [] c.fam = "red" /\ c.op # "gradient" ->
          IF HasOff(c.u0) THEN Raise("InvalidUnitOperation") ELSE Val(c.u0, RedDeltas(c.op, X(c, 0)))
     [] c.fam = "ref" /\ c.op \in PowOps -> IF HasOff(c.u0) THEN Raise("InvalidUnitOperation") ELSE Opaque("power")
+    [] c.fam = "ref" /\ c.op \in FuncProducts -> IF HasOff(c.u0) THEN Raise("InvalidUnitOperation") ELSE Opaque("product")   \* fixes/C08-array-function-products-refuse-offset
     [] OTHER -> Outcome(c)
 \* T: does the observation agree with the transcription (exception class included)?
 Matches(t, obs) ==
